@@ -18,7 +18,7 @@ import (
 
 type c03Stats struct {
 	packs, inversions, dataPacks, tickOnly, channels3 int
-	orders                                          map[string]struct{}
+	orders                                            map[string]struct{}
 }
 
 func checkC03(rt *caseRT, st *c03Stats) []vio {
@@ -153,24 +153,67 @@ func checkC03(rt *caseRT, st *c03Stats) []vio {
 				st.inversions++
 			}
 		}
-		// resume floor: with a seek position the channel clock starts at the checkpoint time
-		var floor uint64
-		for _, col := range rt.c.Colls {
+		// resume floor: a stream resumed from a checkpoint raises the channel clock to the checkpoint time when it
+		// joins the channel. The checkpoint time is the channel's own time of the pack it stands for, so the channel
+		// had been at least there before the restart: nothing on the channel may fall below it afterwards. A pack of
+		// ANOTHER stream emitted before the resumed stream's first pack on the channel was stamped before that floor
+		// could be applied (streams register one by one and start emitting at once): recorded finding, own key.
+		type floorOf struct {
+			coll int
+			ts   uint64
+		}
+		var floors []floorOf
+		for ci, col := range rt.c.Colls {
 			for _, sh := range col.Shards {
-				if sh.DstP == q && col.SeekTs > floor {
-					floor = col.SeekTs
+				if sh.DstP == q && col.SeekTs != 0 {
+					floors = append(floors, floorOf{ci, col.SeekTs})
+					break
 				}
 			}
 		}
-		if floor != 0 {
+		if len(floors) > 0 {
+			fwdColl := map[int]bool{} // collections whose packs reach q through the forward path
 			for _, ep := range deq {
-				for _, m := range ep.Msgs {
-					if m.UID >= 0 && !m.Synth && m.End <= floor {
-						add("C03/data-ts-not-above-resume-checkpoint", fmt.Sprintf("q=%s seq=%d uid=%d ts %d <= checkpoint ts %d", q, ep.Seq, m.UID, m.End, floor))
-					}
+				if ep.Rec != nil && ep.Rec.forwarded {
+					fwdColl[ep.Rec.collIdx] = true
 				}
-				if t := ep.Msgs[len(ep.Msgs)-1].End; t < floor {
-					add("C03/tick-below-resume-checkpoint", fmt.Sprintf("q=%s seq=%d tick %d < checkpoint ts %d", q, ep.Seq, t, floor))
+			}
+			joined := map[int]bool{} // collections that have emitted on q so far
+			for _, ep := range deq {
+				own := -1
+				if ep.Rec != nil {
+					own = ep.Rec.collIdx
+				}
+				if own >= 0 {
+					joined[own] = true
+				}
+				tick := ep.Msgs[len(ep.Msgs)-1].End
+				for _, f := range floors {
+					late := f.coll != own && !joined[f.coll]
+					// the checkpoint belongs to a stream that reaches q through the forward path: it raised the clock of the
+					// reading handler's channel, never q's, so q stays below it until the source times catch up (second
+					// recorded finding)
+					fwdOwn := fwdColl[f.coll]
+					for _, m := range ep.Msgs {
+						if m.UID >= 0 && !m.Synth && m.End <= f.ts {
+							k := "C03/data-ts-not-above-resume-checkpoint"
+							if late {
+								k = "C03/below-checkpoint-of-a-stream-that-joins-the-channel-later"
+							} else if fwdOwn {
+								k = "C03/forwarded-stream-below-its-own-resume-checkpoint"
+							}
+							add(k, fmt.Sprintf("q=%s seq=%d uid=%d ts %d <= checkpoint ts %d of collection %d", q, ep.Seq, m.UID, m.End, f.ts, f.coll))
+						}
+					}
+					if tick < f.ts {
+						k := "C03/tick-below-resume-checkpoint"
+						if late {
+							k = "C03/below-checkpoint-of-a-stream-that-joins-the-channel-later"
+						} else if fwdOwn {
+							k = "C03/forwarded-stream-below-its-own-resume-checkpoint"
+						}
+						add(k, fmt.Sprintf("q=%s seq=%d tick %d < checkpoint ts %d of collection %d (pack of collection %d)", q, ep.Seq, tick, f.ts, f.coll, own))
+					}
 				}
 			}
 		}
